@@ -15,7 +15,8 @@ EXTENDS Lookup, TLC, Json
 CONSTANTS Part      \* "cases" | "short" | "edits"
 VARIABLE nm
 
-Alpha == {0, 32, 45, 48, 57, 58, 255} \cup {65, 67, 69, 70, 73, 76, 77, 80, 82, 84, 85, 86}
+\* (13, 173, 198, 230: bytes that coincide with '-', 'f', 'F' under |0x20, &0x7f style case folding shortcuts)
+Alpha == {0, 13, 32, 45, 48, 57, 58, 173, 198, 230, 255} \cup {65, 67, 69, 70, 73, 76, 77, 80, 82, 84, 85, 86}
                \cup {97, 99, 101, 102, 105, 108, 109, 112, 114, 116, 117, 118} \cup {113, 115, 110, 111, 100, 98, 75, 89, 83}
 
 AllNames == { HdrNameTable[k].n : k \in 1..Len(HdrNameTable) } \cup { MethodNames[m] : m \in 1..Len(MethodNames) }
